@@ -408,7 +408,7 @@ type Tx struct {
 	finished bool
 	dead     bool
 	mutated  bool
-	foreign  bool // begun by a goroutine other than the driver: not charged to the running operation
+	foreign  bool     // begun by a goroutine other than the driver: not charged to the running operation
 	handed   [][]byte // value copies handed out, poisoned at the end of the transaction
 }
 
